@@ -73,14 +73,12 @@ def scaled_case(case, rng):
             else:
                 c2.kwargs[k] = new[0]
     c2.finish()
-    mr = case.note.get("mark_reduced")
-    if mr:
+    if case.note.get("mark_reduced") is not None:
         from ..gen.expr import xleaves
-        mrs = set(mr) | {case.note["numberized"][n].uid for n in mr if n in case.note.get("numberized", {})}
+        out_names = {l.tname for e in c2.xout for l in xleaves(e)}
         for e in c2.xin:
             for l in xleaves(e):
-                if l.tname in mrs:
-                    l.bracket = True
+                l.bracket = l.tname not in out_names
     if any(math.prod(s) > 300000 for s in c2.in_shapes + c2.out_shapes):
         raise Skip()
     c2.tensors = []
